@@ -8,7 +8,7 @@ extern "C" {
 }
 #define CALL(fnname, expr) api(fnname, [&]() { return (expr); })
 #define CALLN(fnname, expr) api(fnname, [&]() { return (expr); }, A_NOENUM)
-#define SKIP(why) do { ev("skip %s: %s", opk_name(o.k), why); return; } while (0)
+#define SKIP(why) do { ev("skip %s: %s", opk_name(o.k), why); g_stats.inc(std::string("op.skipped.") + opk_name(o.k)); return; } while (0)
 
 // ------------------------------------------------------------------------------------------------ helpers
 static bool path_to(MCont &c, uint64_t uid, std::vector<MCont *> &path) {
@@ -390,6 +390,7 @@ void ApiRun::op_plant_fail(const Op &o) {
     if (!have_good) { if (c.iter >= 0) { Op e; e.k = O_IterClose; int ord = 0, cnt = 0; for (size_t i = 0; i < cifs.size(); ++i) if (cifs[i].cif && cifs[i].iter >= 0) { if ((int) i == ci) ord = cnt; ++cnt; } e.a = (uint32_t) ord; op_iter_end(e, false); } SKIP("no suitable target for the planted failure"); }
     g_stats.cover(hmix(hmix(hstr("plant"), (uint64_t) o.pf_kind), hmix((uint64_t) o.pos, inside ? 1 : 0)));
     ev("plant %d pos=%d inside_tx=%d", o.pf_kind, o.pos, inside ? 1 : 0);
+    g_stats.inc(strprintf("plant.kind%02d.pos%d", o.pf_kind, o.pos));
     // ---- the failing call
     forced_cont = fc; forced_loop = fl; last_rc = -12345;
     int saved_kind = cur_kind; cur_kind = bad.k;
